@@ -36,6 +36,7 @@ type Rule struct {
 	Floor    int    // minimal number of instances (confirmed by hand on the pinned tree)
 	Thorough bool   // only in the thorough tier
 	Tags     bool   // thorough tier: also evaluated under -tags debug
+	Arch     bool   // thorough tier: also evaluated under GOARCH=386 (arch-split siblings of package value)
 	Run      func(c *Ctx)
 }
 
@@ -157,15 +158,20 @@ func run(prop string, spec *PropSpec, tier, repo, verif, onlyRule, replayKey str
 	if onlyRule == "" {
 		ruleIDs = spec.Rules
 	}
-	configs := []string{""}
+	type buildCfg struct{ tags, arch string }
+	configs := []buildCfg{{"", ""}}
 	if tier == "thorough" {
-		configs = append(configs, "debug")
+		// thorough: also the debug build of the VM and a 32-bit target, which
+		// swaps in the *_32sys.go siblings of package value (boxed Int64,
+		// UInt64 and Float64)
+		configs = append(configs, buildCfg{"debug", ""}, buildCfg{"", "386"})
 	}
 	var all []*Obligation
 	var revs []RuleEvidence
 	stats := map[string]int{}
 	cfgNames := []string{}
-	for ci, tags := range configs {
+	for ci, cfg := range configs {
+		tags := cfg.tags
 		// which rules run under this configuration
 		var todo []*Rule
 		for _, id := range ruleIDs {
@@ -177,7 +183,10 @@ func run(prop string, spec *PropSpec, tier, repo, verif, onlyRule, replayKey str
 			if r.Thorough && tier != "thorough" {
 				continue
 			}
-			if ci > 0 && !r.Tags {
+			if cfg.tags != "" && !r.Tags {
+				continue
+			}
+			if cfg.arch != "" && !r.Arch {
 				continue
 			}
 			todo = append(todo, r)
@@ -185,7 +194,9 @@ func run(prop string, spec *PropSpec, tier, repo, verif, onlyRule, replayKey str
 		if len(todo) == 0 {
 			continue
 		}
+		os.Setenv("ELKCHECK_GOARCH", cfg.arch)
 		c, err := Load(repo, tags)
+		os.Setenv("ELKCHECK_GOARCH", "")
 		if err != nil {
 			fmt.Fprintln(os.Stderr, "elkcheck:", err)
 			return 2
@@ -194,6 +205,9 @@ func run(prop string, spec *PropSpec, tier, repo, verif, onlyRule, replayKey str
 		name := "default"
 		if tags != "" {
 			name = "tags=" + tags
+		}
+		if cfg.arch != "" {
+			name = "goarch=" + cfg.arch
 		}
 		cfgNames = append(cfgNames, name)
 		for _, r := range todo {
@@ -231,9 +245,12 @@ func run(prop string, spec *PropSpec, tier, repo, verif, onlyRule, replayKey str
 		return 2
 	}
 
+	baseKey := func(k string) string {
+		return strings.TrimSuffix(strings.TrimSuffix(k, "@tags=debug"), "@goarch=386")
+	}
 	openKeys := map[string]*KnownFinding{}
 	for i := range known.Open {
-		openKeys[strings.TrimSuffix(known.Open[i].Key, "@tags=debug")] = &known.Open[i]
+		openKeys[baseKey(known.Open[i].Key)] = &known.Open[i]
 	}
 	nViol, nKnown, nDis := 0, 0, 0
 	replayDir := filepath.Join(verif, "evidence", "replay")
@@ -246,7 +263,7 @@ func run(prop string, spec *PropSpec, tier, repo, verif, onlyRule, replayKey str
 			continue
 		}
 		if o.Status == Violated || o.Status == Undecided {
-			base := strings.TrimSuffix(o.Key(), "@tags=debug")
+			base := baseKey(o.Key())
 			if kf := openKeys[base]; kf != nil {
 				o.Status = Known
 				nKnown++
@@ -360,8 +377,10 @@ func run(prop string, spec *PropSpec, tier, repo, verif, onlyRule, replayKey str
 }
 
 func nameOfCfg(o *Obligation) string {
-	if i := strings.LastIndex(o.Construct, "@tags="); i >= 0 {
-		return o.Construct[i+1:]
+	for _, suf := range []string{"@tags=debug", "@goarch=386"} {
+		if strings.HasSuffix(o.Construct, suf) {
+			return suf[1:]
+		}
 	}
 	return "default"
 }
